@@ -615,7 +615,7 @@ func (g *docGen) operation(kind, name string) string {
 // It returns the text and the names of the faults actually injected.
 func GenDoc(r *Rng, s *GSchema, nfaults int) (string, []string) {
 	g := &docGen{r: r, s: s, faults: nfaults, fragType: map[string]string{}, fragOpen: map[string]bool{}}
-	nops := r.Weighted([]int{1, 12, 4, 2}) // now and then a document of fragment definitions only
+	nops := r.Weighted([]int{2, 12, 4, 2}) // now and then a document of fragment definitions only
 	var ops []string
 	for i := 0; i < nops; i++ {
 		kind := "query"
